@@ -225,7 +225,7 @@ func C15() *check.Property {
 		Title:    "Re-subscribing operators run attempts in sequence, the right number of times",
 		Patterns: CorePatterns,
 		Scope:    []string{ro},
-		Rules:    []check.Rule{ruleSequentialAttempts(), ruleRetryCtx(), ruleSequentialInnerGuard(), ruleTerminalPropagation(), ruleStateLevel(), ruleAddAfterClose(), ruleReadAfterWait(), ruleFinalizerDiscipline(), ruleLoopStopsAfterError()},
+		Rules:    []check.Rule{ruleSequentialAttempts(), ruleRetryCtx(), ruleSequentialInnerGuard(), ruleTerminalPropagation(), ruleStateLevel(), ruleAddAfterClose(), ruleReadAfterWait(), ruleFinalizerDiscipline(), ruleLoopStopsAfterError(), ruleAttemptDecisionErrorBlind()},
 		Explanation: "Structural clause only. For the seven re-subscribing operators the property names, the model's subscribe sites that lie in a loop or in a repeatedly invoked slot must be awaited (Wait on the same subscription, same iteration, after the site) " +
 			"or be subscribed from the terminal slot of the previous attempt, so that two attempts are never alive together; each attempt's next slot must forward to the destination; Retry's two context checks must exist, emit the context error and return. " +
 			"This is a necessary condition of 'strictly one after another'; removing the Wait, moving it, or dropping a context test is reported.",
